@@ -36,6 +36,60 @@ pub async fn check_global(c: &mut Cluster) {
     check_pairs(&mut c.oracle, &views);
     check_clients(c);
 
+    // ---- C27: a join is answered successfully only once the node's AddNode entry is committed;
+    //      a node counts itself a voter only after a committed promotion names it
+    let joins = c.oracle.joins.clone();
+    for (node, leader, success) in joins {
+        if !success {
+            continue;
+        }
+        let committed_add = views.iter().any(|v| {
+            v.configs.iter().any(|(idx, d)| *idx <= v.commit && *d == format!("AddNode({node})"))
+        });
+        if !committed_add {
+            c.oracle.violate(
+                "C27",
+                format!("join{node}"),
+                format!("leader {leader} answered node {node}'s join successfully although no committed AddNode({node}) entry exists"),
+            );
+        }
+    }
+    let initial_voters = c.opts.voters.clone();
+    for v in &views {
+        let self_meta = v.members.iter().find(|(id, _, _)| *id == v.id);
+        let self_is_voter = self_meta
+            .map(|(_, role, status)| {
+                *role != d_engine_proto::common::NodeRole::Learner as i32
+                    && *status == d_engine_proto::common::NodeStatus::Active as i32
+            })
+            .unwrap_or(false);
+        if (self_is_voter || matches!(v.role, RoleKind::Follower | RoleKind::Candidate | RoleKind::Leader))
+            && !initial_voters.contains(&v.id)
+        {
+            let promoted = views.iter().any(|w| {
+                w.configs.iter().any(|(idx, d)| {
+                    *idx <= w.commit
+                        && (d.starts_with("BatchPromote(") || d.starts_with("Promote("))
+                        && d.trim_start_matches("BatchPromote(")
+                            .trim_start_matches("Promote(")
+                            .trim_matches(|ch| ch == '[' || ch == ']' || ch == ')' || ch == '(')
+                            .split(',')
+                            .any(|x| x.trim() == v.id.to_string())
+                })
+            });
+            if !promoted {
+                c.oracle.violate(
+                    "C27",
+                    format!("voter{}", v.id),
+                    format!(
+                        "node {} acts as a voter ({:?}) although no committed promotion names it",
+                        v.id, v.role
+                    ),
+                );
+            }
+        }
+    }
+
     // ---- C09: when a leader's commit index is N, a majority of the voters it currently
     //      recognises (itself included) hold its entry N, and entry N is of its term.
     let mut images: Vec<(u32, Vec<super::cluster::LogEnt>)> = Vec::new();
@@ -77,7 +131,7 @@ pub async fn check_global(c: &mut Cluster) {
             .filter(|(id, _role, status)| *status == d_engine_proto::common::NodeStatus::Active as i32 || *id == v.id)
             .map(|(id, _, _)| *id)
             .collect();
-        let holders = voters
+        let holder_set: std::collections::BTreeSet<u32> = voters
             .iter()
             .filter(|id| {
                 images
@@ -86,7 +140,11 @@ pub async fn check_global(c: &mut Cluster) {
                     .map(|(_, log)| log.iter().any(|x| x.index == n && x.term == e.term && x.payload == e.payload))
                     .unwrap_or(false)
             })
-            .count();
+            .copied()
+            .collect();
+        let holders = holder_set.len();
+        // C26: the quorum this commit actually rested on
+        c.oracle.on_commit_quorum(v.id, v.term, holder_set);
         if holders * 2 <= voters.len() {
             c.oracle.violate(
                 "C09",
